@@ -90,11 +90,11 @@ Definition outcome_wf (k : outcome) (ds : option (list detail)) (r : option stri
       end).
 
 (* startTestRun first (or implied by the first startTest), tests one after the other, each
-   startTest / outcome / stopTest with the same test, time() anywhere (also before the run is
-   started, explicitly or by the first startTest), tags() anywhere after the start *)
+   startTest / outcome / stopTest with the same test, time() and tags() anywhere (also before the
+   run is started, explicitly or by the first startTest) *)
 Definition wf_step (p : phase) (o : op) : option phase :=
   match p, o with
-  | PNot, OTime _ => Some PNot
+  | PNot, OTime _ | PNot, OTags _ _ => Some PNot
   | PNot, OStartRun => Some PIdle
   | PNot, OStartTest i => Some (PIn i)
   | PIdle, OTime _ | PIdle, OTags _ _ => Some PIdle
@@ -153,7 +153,7 @@ Definition some_list {A} (o : option (list A)) : list A := match o with Some l =
 
 Definition sstep (s : sstate) (o : op) : sstate * (list xmid * list xfin) :=
   match o with
-  | OStartRun => (SS true [] None None 0, ([XStartRun], [YStartRun]))     (* resets tags and the supplied time *)
+  | OStartRun => (SS true [] None None 0, ([XStartRun], [YStartRun]))     (* resets the run-level tags and the supplied time *)
   | OStopRun => (s, ([XStopRun], [YStopRun]))
   | OTime t => (SS (ss_started s) (ss_run_tags s) (ss_test_tags s) (Some t) (ss_start s), ([], []))
   | OTags n g =>
@@ -163,8 +163,8 @@ Definition sstep (s : sstate) (o : op) : sstate * (list xmid * list xfin) :=
        end, ([], []))
   | OStartTest i =>
       (* a first startTest without startTestRun starts the run; no startTestRun call has wiped the
-         time supplied so far, so it is still the time of this test's start *)
-      let s1 := if ss_started s then s else SS true [] None (ss_now s) 0 in
+         time supplied or the run-level tags changed so far: they hold for this test *)
+      let s1 := if ss_started s then s else SS true (ss_run_tags s) None (ss_now s) 0 in
       let pre := if ss_started s then ([], []) else ([XStartRun], [YStartRun]) in
       (SS true (ss_run_tags s1) (Some (ss_run_tags s1)) (ss_now s1) (ss_ts s1),
        (fst pre ++ [XStatus i Inprogress None (ss_ts s1)], snd pre))
